@@ -482,3 +482,419 @@ def encode_instruction(isa: Isa, mnemonic: str, ops: list, resolve, address: int
 
 def selected_variant_index(isa: Isa, mnemonic: str, ops: list) -> int:
     return select_statement(isa, mnemonic, ops)[0]
+
+
+# ------------------------------------------------------------------------------------------------
+# two-pass layout of structured programs
+#
+# Items (dicts, 't' = type):
+#   label name | const name e | instr mn ops | data w vals | str d chars q | fill n v | zero n | zerountil a
+#   org e zone? | align e? | memzone zone | createzone name start end | define name value?
+#   if lhs op? rhs? | ifdef name | ifndef name | elif lhs op? rhs? | else | endif | mute | unmute
+#   include file items | comment | blank
+
+WIDTH = {'.byte': 1, '.2byte': 2, '.4byte': 4, '.8byte': 8}
+CMP = {'==': lambda a, b: a == b, '!=': lambda a, b: a != b, '>': lambda a, b: a > b,
+       '>=': lambda a, b: a >= b, '<': lambda a, b: a < b, '<=': lambda a, b: a <= b}
+
+
+def valid_label_name(name: str) -> bool:
+    import re
+    return re.match(r'^(?!__|\.\.)(?:[._a-zA-Z][a-zA-Z0-9_]*)$', name) is not None
+
+
+class Layouter:
+    """Feed items in source order (pass 1), then finish() (pass 2)."""
+
+    def __init__(self, isa: Isa, cli_symbols=(), main_file='main.asm'):
+        self.isa = isa
+        self.zones = {}
+        top = (1 << isa.address_size) - 1
+        for name, (s, e) in isa.zones.items():
+            if e > top or s > e:
+                raise Reject('invalid predefined zone')
+            self.zones[name] = [s, e, s]
+        g = self.zones['GLOBAL']
+        if isa.origin < g[0]:
+            raise Reject('origin below GLOBAL')
+        if isa.origin > g[1] + 1:
+            raise Reject('origin beyond GLOBAL')
+        g[2] = isa.origin
+        self.globals = {}
+        for n, v in isa.constants.items():
+            self._define_global(n, v)
+        self.blocks = []
+        for b in isa.data_blocks:
+            self._define_global(b['name'], b['address'])
+            self.blocks.append({'addr': b['address'], 'size': b['size'],
+                                'bytes': bytes([b['value'] & 0xFF]) * b['size'], 'muted': False, 'kind': 'predefined',
+                                'zone': 'GLOBAL', 'file': None})
+        self.files = {}            # file id -> {'labels': {}}
+        self.locals = {}           # (file id, region) -> {}
+        self.symbols = {}
+        for n, v in isa.symbols:
+            self._define_symbol(n, v)
+        for n, v in cli_symbols:
+            self._define_symbol(n, v)
+        self.lines = []
+        self.fstack = []
+        self.conds = []            # frames: {'parent': bool, 'taken': bool, 'active': bool, 'else': bool}
+        self.mute = 0
+        self.nregion = 0
+        self.included = set()
+        self.sym_version = dict(self.symbols)
+        self.enter_file(main_file)
+
+    # -- files -------------------------------------------------------------------------------------
+    def enter_file(self, fname):
+        if fname in self.included:
+            raise Reject('file included more than once')
+        self.included.add(fname)
+        self.files.setdefault(fname, {'labels': {}})
+        self.fstack.append({'file': fname, 'zone': 'GLOBAL', 'region': None})
+
+    def leave_file(self):
+        self.fstack.pop()
+
+    @property
+    def cur(self):
+        return self.fstack[-1]
+
+    @property
+    def active(self):
+        return all(f['active'] for f in self.conds)
+
+    def cursor(self, zone=None):
+        return self.zones[zone or self.cur['zone']][2]
+
+    # -- names -------------------------------------------------------------------------------------
+    def _check_name(self, name):
+        base = name.lstrip('._') if name[:1] in '._' else name
+        if name.startswith('.') or name.startswith('_'):
+            base = name[1:]
+        if base in KEYWORDS:
+            raise Reject('label is an assembler keyword')
+        if name in self.isa.registers:
+            raise Reject('label is a register name')
+        if not valid_label_name(name):
+            raise Unspecified('invalid label spelling')
+
+    def _define_global(self, name, value):
+        if name in self.globals:
+            raise Reject('duplicate global name')
+        self.globals[name] = value
+
+    def _define_symbol(self, name, value):
+        if name in self.symbols:
+            raise Reject('symbol defined twice')
+        self.symbols[name] = '' if value is None else str(value)
+
+    def define_label(self, name, value, scope):
+        self._check_name(name)
+        fid, region = scope
+        if name.startswith('.'):
+            if region is None:
+                raise Reject('local label with no enclosing non-local label')
+            table = self.locals.setdefault((fid, region), {})
+        elif name.startswith('_'):
+            table = self.files[fid]['labels']
+        else:
+            table = self.globals
+        if name in table:
+            raise Reject('name defined twice in one scope')
+        table[name] = value
+
+    def lookup(self, name, scope):
+        fid, region = scope
+        if name.startswith('.'):
+            t = self.locals.get((fid, region), {}) if region is not None else {}
+        elif name.startswith('_'):
+            t = self.files[fid]['labels']
+        else:
+            if name in self.isa.registers:
+                raise Reject('register used as a number')
+            t = self.globals
+        if name in t:
+            return t[name]
+        return None
+
+    def resolver(self, scope, syms, strict):
+        def resolve(name):
+            if name in syms:
+                return self._symbol_value(name, syms)
+            v = self.lookup(name, scope)
+            if v is None:
+                if strict:
+                    raise Reject('unresolved name ' + name)
+                raise Unspecified('name used before it is bound in the first pass: ' + name)
+            return v
+        return resolve
+
+    def _symbol_value(self, name, syms, depth=0):
+        if depth > 20:
+            raise Reject('symbol cycle')
+        txt = syms[name].strip()
+        try:
+            if txt.startswith('$'):
+                return int(txt[1:], 16)
+            if txt.startswith('0x'):
+                return int(txt[2:], 16)
+            return int(txt)
+        except ValueError:
+            if txt in syms:
+                return self._symbol_value(txt, syms, depth + 1)
+            raise Unspecified('symbol with a non-numeric replacement used as a number')
+
+    # -- pass 1 ------------------------------------------------------------------------------------
+    def feed(self, item):
+        t = item['t']
+        if t in ('comment', 'blank'):
+            return
+        if t in ('if', 'ifdef', 'ifndef'):
+            parent = self.active
+            cond = self._cond(item) if parent else False
+            self.conds.append({'parent': parent, 'taken': cond, 'active': parent and cond, 'else': False})
+            return
+        if t == 'elif':
+            if not self.conds:
+                raise Reject('#elif without opener')
+            f = self.conds[-1]
+            if f['else']:
+                raise Unspecified('#elif after #else')
+            if f['parent'] and not f['taken']:
+                c = self._cond(item)
+                f['active'] = c
+                f['taken'] = c
+            else:
+                f['active'] = False
+            return
+        if t == 'else':
+            if not self.conds:
+                raise Reject('#else without opener')
+            f = self.conds[-1]
+            if f['else']:
+                raise Unspecified('second #else')
+            f['else'] = True
+            f['active'] = f['parent'] and not f['taken']
+            f['taken'] = True
+            return
+        if t == 'endif':
+            if not self.conds:
+                raise Reject('#endif without opener')
+            self.conds.pop()
+            return
+        if not self.active:
+            return
+        if t == 'mute':
+            self.mute += 1
+            return
+        if t == 'unmute':
+            if self.mute > 0:
+                self.mute -= 1
+            return
+        if t == 'define':
+            self._define_symbol(item['name'], item.get('value'))
+            self.sym_version = dict(self.symbols)
+            return
+        if t == 'createzone':
+            top = (1 << self.isa.address_size) - 1
+            g = self.zones['GLOBAL']
+            if item['name'] in self.zones:
+                raise Reject('zone name reused')
+            if item['start'] < g[0] or item['end'] > g[1]:
+                raise Reject('zone not contained in GLOBAL')
+            if item['end'] > top or item['start'] > item['end']:
+                raise Reject('zone inverted or beyond the address width')
+            self.zones[item['name']] = [item['start'], item['end'], item['start']]
+            return
+        if t == 'include':
+            self.enter_file(item['file'])
+            for sub in item['items']:
+                self.feed(sub)
+            self.leave_file()
+            return
+        cur = self.cur
+        fid = cur['file']
+        syms = self.sym_version
+        if t == 'label':
+            name = item['name']
+            if not name.startswith('.'):
+                self.nregion += 1
+                cur['region'] = self.nregion
+            scope = (fid, cur['region'])
+            addr = self.cursor()
+            self._advance(cur['zone'], addr, 0)
+            self.define_label(name, addr, scope)
+            self._line(item, addr, 0, scope, syms)
+            return
+        scope = (fid, cur['region'])
+        if t == 'const':
+            r = self._const_resolver(scope, syms)
+            v = eval_ast(item['e'], r)
+            self.define_label(item['name'], v, scope)
+            self._line(item, self.cursor(), 0, scope, syms)
+            return
+        if t in ('org', 'memzone'):
+            zname = item.get('zone') or 'GLOBAL'
+            if zname not in self.zones:
+                raise Reject('unknown memory zone')
+            cur['region'] = None
+            scope = (fid, None)
+            z = self.zones[zname]
+            if t == 'org':
+                v = eval_ast(item['e'], self.resolver(scope, syms, strict=False))
+                addr = v if item.get('zone') is None else z[0] + v
+                g = self.zones['GLOBAL']
+                if not (z[0] <= addr <= z[1] and g[0] <= addr <= g[1]):
+                    raise Unspecified('origin outside its zone')
+                z[2] = addr
+            cur['zone'] = zname
+            self._line(item, z[2], 0, scope, syms)
+            return
+        zone = cur['zone']
+        addr = self.cursor()
+        if t == 'align':
+            p = self.isa.page_size if item.get('e') is None else \
+                eval_ast(item['e'], self.resolver(scope, syms, strict=False))
+            if p <= 0:
+                raise Unspecified('non-positive page size')
+            addr = -(-addr // p) * p
+            self._advance(zone, addr, 0)
+            self._line(item, addr, 0, scope, syms)
+            return
+        if t == 'instr':
+            size = instruction_size(self.isa, item['mn'], item['ops'])
+        elif t == 'data':
+            size = WIDTH[item['d']] * len(item['vals'])
+            if not item['vals']:
+                raise Unspecified('empty data list')
+        elif t == 'str':
+            size = len(item['chars']) + (1 if item['d'] in ('.cstr', '.asciiz', 'bare') else 0)
+            if item['d'] == 'bare' and not self.isa.embedded_strings:
+                raise Reject('embedded strings are not enabled')
+        elif t in ('fill', 'zero'):
+            size = eval_ast(item['n'], self.resolver(scope, syms, strict=False))
+            if size < 0:
+                raise Unspecified('negative fill count')
+        elif t == 'zerountil':
+            a = eval_ast(item['a'], self.resolver(scope, syms, strict=False))
+            size = a - addr + 1 if a >= addr else 0
+        else:
+            raise ValueError(t)
+        self._advance(zone, addr, size)
+        self._line(item, addr, size, scope, syms, has_bytes=True)
+
+    def _const_resolver(self, scope, syms):
+        def resolve(name):
+            if name in syms:
+                return self._symbol_value(name, syms)
+            v = self.lookup(name, scope)
+            if v is None:
+                raise Unspecified('constant refers to a name that is not an earlier constant')
+            return v
+        return resolve
+
+    def _advance(self, zone, addr, size):
+        z = self.zones[zone]
+        new = addr + size
+        if new < z[0] or new > z[1] + 1:
+            raise Reject('outside its memory zone')
+        g = self.zones['GLOBAL']
+        if size > 0 and (addr < g[0] or new - 1 > g[1]):
+            raise Reject('outside GLOBAL')
+        z[2] = new
+
+    def _line(self, item, addr, size, scope, syms, has_bytes=False):
+        self.lines.append({'item': item, 'addr': addr, 'size': size, 'scope': scope, 'syms': syms,
+                           'zone': self.cur['zone'], 'file': self.cur['file'], 'muted': self.mute > 0,
+                           'has_bytes': has_bytes, 'bytes': None, 'kind': item['t']})
+
+    def _cond(self, item):
+        t = item['t']
+        if t in ('ifdef', 'ifndef'):
+            d = item['name'] in self.symbols
+            return d if t == 'ifdef' else not d
+        syms = self.symbols
+
+        def resolve(name):
+            if name in syms:
+                return self._symbol_value(name, syms)
+            raise Unspecified('condition mentions an undefined symbol')
+        lhs = eval_ast(item['lhs'], resolve)
+        if item.get('op') is None:
+            return lhs != 0
+        rhs = eval_ast(item['rhs'], resolve)
+        return CMP[item['op']](lhs, rhs)
+
+    # -- pass 2 ------------------------------------------------------------------------------------
+    def finish(self):
+        if self.conds:
+            raise Unspecified('unterminated conditional block')
+        zones = {k: (v[0], v[1]) for k, v in self.zones.items()}
+        for ln in self.lines:
+            if not ln['has_bytes']:
+                continue
+            it = ln['item']
+            t = it['t']
+            resolve = self.resolver(ln['scope'], ln['syms'], strict=True)
+            if t == 'instr':
+                b = encode_instruction(self.isa, it['mn'], it['ops'], resolve, ln['addr'], zones)
+            elif t == 'data':
+                w = WIDTH[it['d']]
+                b = b''
+                for e in it['vals']:
+                    v = eval_ast(e, resolve)
+                    b += (v % (1 << (8 * w))).to_bytes(w, self.isa.endian)
+            elif t == 'str':
+                b = bytes(c if isinstance(c, int) else c[1] for c in it['chars'])
+                if it['d'] in ('.cstr', '.asciiz', 'bare'):
+                    b += bytes([self.isa.cstr_terminator])
+            elif t == 'fill':
+                b = bytes([eval_ast(it['v'], resolve) & 0xFF]) * ln['size']
+            else:
+                b = bytes(ln['size'])
+            if len(b) != ln['size']:
+                raise Reject('emitted size differs from reserved size')
+            ln['bytes'] = b
+        occupying = [ln for ln in self.lines if ln['has_bytes'] and ln['size'] > 0] + \
+                    [b for b in self.blocks if b['size'] > 0]
+        occupying.sort(key=lambda x: x['addr'])
+        for a, b in zip(occupying, occupying[1:]):
+            if a['addr'] + a['size'] > b['addr']:
+                if a['muted'] or b['muted']:
+                    raise Unspecified('overlap involving a muted line')
+                raise Reject('two lines occupy a common address')
+        mem = {}
+        for ln in occupying:
+            if ln['muted']:
+                continue
+            for i, byte in enumerate(ln['bytes']):
+                mem[ln['addr'] + i] = byte
+        self.memory = mem
+        return mem
+
+    def image(self, start=0, end=None, fill=0):
+        mem = self.memory
+        if end is None:
+            if not mem:
+                raise Unspecified('no emitted byte and no explicit end')
+            end = max(mem)
+            if start > end:
+                raise Unspecified('window start beyond the last emitted byte without an explicit end')
+        if end < start:
+            raise Unspecified('inverted window')
+        if end - start > (1 << 17):
+            raise Unspecified('image window larger than 128 KiB (harness bound)')
+        return bytes(mem.get(a, fill & 0xFF) for a in range(start, end + 1))
+
+
+def layout_program(isa: Isa, items, cli_symbols=(), main_file='main.asm'):
+    """-> ('accepted', Layouter) | ('rejected', reason).  Unspecified propagates."""
+    try:
+        lay = Layouter(isa, cli_symbols, main_file)
+        for it in items:
+            lay.feed(it)
+        lay.finish()
+        return 'accepted', lay
+    except Reject as r:
+        return 'rejected', r.why
